@@ -307,7 +307,41 @@ func (n *quotedString) Text() string {
 
 // String returns the SQL/JSON path-encoded quoted string.
 func (n *quotedString) String() string {
-	return strconv.Quote(n.str)
+	return quote(n.str)
+}
+
+// quote returns str as a double-quoted SQL/JSON path string literal. It
+// relies on [strconv.Quote], but rewrites the two Go escape sequences that
+// SQL/JSON path strings don't support, \a and \UXXXXXXXX, into the
+// equivalent \u0007 and \u{XXXXXX}.
+func quote(str string) string {
+	quoted := strconv.Quote(str)
+	if !strings.Contains(quoted, `\a`) && !strings.Contains(quoted, `\U`) {
+		return quoted
+	}
+
+	const hexSize = 8
+	buf := new(strings.Builder)
+	for i := 0; i < len(quoted); i++ {
+		if quoted[i] != '\\' {
+			buf.WriteByte(quoted[i])
+			continue
+		}
+
+		// Found an escape sequence; examine the character after the backslash.
+		i++
+		switch quoted[i] {
+		case 'a':
+			buf.WriteString(`\u0007`)
+		case 'U':
+			buf.WriteString(`\u{` + strings.TrimLeft(quoted[i+1:i+1+hexSize], "0") + "}")
+			i += hexSize
+		default:
+			buf.WriteByte('\\')
+			buf.WriteByte(quoted[i])
+		}
+	}
+	return buf.String()
 }
 
 // writeTo writes n.String to buf.
@@ -874,7 +908,7 @@ func (n *RegexNode) writeTo(buf *strings.Builder, _, withParens bool) {
 	}
 
 	n.operand.writeTo(buf, false, n.operand.priority() <= n.priority())
-	fmt.Fprintf(buf, " like_regex %q%v", n.pattern, n.flags)
+	fmt.Fprintf(buf, " like_regex %v%v", quote(n.pattern), n.flags)
 
 	if withParens {
 		buf.WriteRune(')')
